@@ -783,6 +783,16 @@ class Calls(object):
             (a,) = self._args(ev, node, st)
             if not isinstance(a.t, TSeq):
                 raise Outside("join of %s" % a.t)
+            items = (a.meta or {}).get("list_items")
+            if items is not None and all(isinstance(i.t, TStr) for i in items):
+                # sep.join([x, y, z]) over a list LITERAL of strs is x + sep + y + sep + z
+                cc = self.fx.lib.str_concat
+                e = self.cx.str_lit("")
+                for n_, it in enumerate(items):
+                    if n_:
+                        e = cc(e, recv.e)
+                    e = cc(e, it.e)
+                return SV(e, TStr())
             return SV(self.fx.lib.str_join(recv.e, a), TStr())
         if name in ("startswith", "endswith") and len(node.args) == 1 and isinstance(node.args[0], ast.Tuple):
             # s.endswith((a, b, ...)) == s.endswith(a) or s.endswith(b) or ...
